@@ -29,7 +29,7 @@ ASSUMPTIONS = ["nvmon.ref exact reference for vertex positions (uv within 1e-12 
 FLOORS = {'quick': {'topology': 150, 'vertex-on-surface': 1500, 'quads': 100, 'trim-cells': 1000, 'obj': 60, 'off': 60, 'stl-ascii': 60,
                     'stl-binary': 60, 'container': 30},
           'thorough': {'topology': 1500, 'vertex-on-surface': 15000, 'trim-cells': 10000}}
-MANDATORY_TAGS = ['mesh:kept-across-edit', 'partial-evaluate-before', 'spacing1', 'spacing>=2', 'spacing>=3', 'spacing:not-dividing', 'rational', 'trim:freeform', 'trim:spline', 'trim:reversed', 'trim:clockwise', 'trim:non-unit-domain', 'trim:added-after-tessellation', 'trim:setter-replaces', 'tessellator:reinstalled-after-edit', 'container', 'container:tessellator-replaced', 'quad:as-surface-tessellator', 'export:quad-mesh',
+MANDATORY_TAGS = ['export:spacing-after-tessellation', 'mesh:kept-across-edit', 'partial-evaluate-before', 'spacing1', 'spacing>=2', 'spacing>=3', 'spacing:not-dividing', 'rational', 'trim:freeform', 'trim:spline', 'trim:reversed', 'trim:clockwise', 'trim:non-unit-domain', 'trim:added-after-tessellation', 'trim:setter-replaces', 'tessellator:reinstalled-after-edit', 'container', 'container:tessellator-replaced', 'quad:as-surface-tessellator', 'export:quad-mesh',
                   'quad', 'non-unit-domain', 'export:file']
 TECHNIQUE = ("runtime monitoring: structural + exact-geometric oracle over every tessellation the workload produces (ids, indices, "
              "orientation, exact area cover, edge incidence, Euler characteristic, vertex = surface(uv)), cell-classification oracle "
@@ -481,6 +481,31 @@ def check_plain(case, ctx):
         vertices_on_surface(ctx, S3, o3.vertices, dom, so.scale_of_defn(S3), rng, 'mesh/stale-after-tessellator-reinstalled', limit=12)
     # ---- exports ---------------------------------------------------------------------------------------------------------------------
     check_exports(ctx, rng, o, [o], sp, sc, as_file=rng.random() < 0.4)
+    # ---- the mesh an exporter is asked for (vertex_spacing=) is the mesh it writes, also when the surface holds another one already ------
+    divs = [k for k in range(2, 7) if (nu - 1) % k == 0 and (nv - 1) % k == 0]
+    if divs and rng.random() < 0.6:
+        from geomdl import exchange
+        sp2 = rng.choice(divs)
+        o5 = G.build(sd)
+        o5.sample_size_u, o5.sample_size_v = nu, nv
+        len(o5.vertices)           # the spacing-1 mesh is cached
+        ctx.tag('export:spacing-after-tessellation')
+        fmt = rng.choice(['off', 'obj', 'stl'])
+        if fmt == 'off':
+            nvs = len(parse_off(exchange.export_off_str(o5, vertex_spacing=sp2, update_delta=False))[0])
+        elif fmt == 'obj':
+            nvs = len(parse_obj(exchange.export_obj_str(o5, vertex_spacing=sp2, update_delta=False))[0])
+        else:
+            nvs = None
+            nfs = len(parse_stl_ascii(exchange.export_stl_str(o5, vertex_spacing=sp2, update_delta=False, binary=False)))
+        e2u, e2v = (nu - 1) // sp2 + 1, (nv - 1) // sp2 + 1
+        if nvs is not None:
+            ctx.check(nvs == e2u * e2v, 'export/vertex-spacing-ignored', 'export_%s_str(vertex_spacing=%d, update_delta=False) of a %dx%d surface that '
+                      'was tessellated before writes %d vertices, the mesh of that spacing has %d' % (fmt, sp2, nu, nv, nvs, e2u * e2v), what=fmt)
+        else:
+            ctx.check(nfs == 2 * (e2u - 1) * (e2v - 1), 'export/vertex-spacing-ignored', 'export_stl_str(vertex_spacing=%d, update_delta=False) of a '
+                      '%dx%d surface that was tessellated before writes %d facets, the mesh of that spacing has %d'
+                      % (sp2, nu, nv, nfs, 2 * (e2u - 1) * (e2v - 1)), what='stl-ascii')
 
 
 def point_seg_dist(p, a, b):
